@@ -34,7 +34,8 @@ def _patterns_for(formula, k):
             continue
         seen.add(t.get_id())
         d = t.decl().kind()
-        if mentions(t) and t.get_id() != kid and (d == z3.Z3_OP_SELECT or d == z3.Z3_OP_UNINTERPRETED) and t.num_args() > 0:
+        if mentions(t) and t.get_id() != kid and (d == z3.Z3_OP_SELECT or d == z3.Z3_OP_UNINTERPRETED) and t.num_args() > 0 \
+                and not _has_binder(t):
             # no nested bound-variable-free junk needed; keep
             cands[t.get_id()] = t
         stack.extend(t.children())
@@ -48,6 +49,23 @@ def _patterns_for(formula, k):
             break
         chosen.append(t)
     return chosen
+
+
+def _has_binder(t):
+    stack = [t]
+    seen = set()
+    while stack:
+        x = stack.pop()
+        if x.get_id() in seen:
+            continue
+        seen.add(x.get_id())
+        if z3.is_quantifier(x):      # includes lambda
+            return True
+        if z3.is_app(x) and x.decl().kind() == z3.Z3_OP_ITE:
+            return True
+        if z3.is_app(x):
+            stack.extend(x.children())
+    return False
 
 
 def _unopt(v):
@@ -203,6 +221,10 @@ class SpecEval:
             guards = [lo <= k, k < hi]
         elif isinstance(it, ast.Call) and isinstance(it.func, ast.Name) and it.func.id == 'ints':
             guards = []
+        elif isinstance(it, ast.Call) and isinstance(it.func, ast.Name) and it.func.id == 'strs':
+            k = z3.Const(fresh_name(name), Str)
+            bound_sv = SV(STR, [k])
+            guards = []
         else:
             coll = self.sev(it, cx)
             if isinstance(coll.ty, TDict):
@@ -234,7 +256,10 @@ class SpecEval:
             full = z3.Implies(z3.And(guards) if guards else z3.BoolVal(True), body)
             pats = _patterns_for(full, k)
             if pats:
-                return mk_bool(z3.ForAll([k], full, patterns=pats))
+                try:
+                    return mk_bool(z3.ForAll([k], full, patterns=pats))
+                except z3.Z3Exception:
+                    pass
             return mk_bool(z3.ForAll([k], full))
         return mk_bool(z3.Exists([k], z3.And(guards + [body])))
 
@@ -271,6 +296,10 @@ class SpecEval:
                 lens = z3.Lambda([kk], z3.Select(h.get(h.list_len_key())[0], lref))
                 arrs = z3.Lambda([kk], z3.Select(h.get(h.list_arr_keys(d.ty.v.elem)[0])[0], lref))
                 return SV(TMapSeq(d.ty.k, d.ty.v.elem), [has, lens, arrs])
+            if n == 'cast':
+                cls = self.sev(e.args[0], cx).py.obj
+                v = self.sev(e.args[1], cx)
+                return SV(TObj(cls, getattr(v.ty, 'nullable', False)), v.t)
             if n == 'isinstance':
                 v = self.sev(e.args[0], cx)
                 c = self.sev(e.args[1], cx)
@@ -394,7 +423,8 @@ class SpecEval:
     def apply_specfn(self, sf, args, cx):
         if not sf.recursive and not sf.opaque:
             # non-recursive spec functions are macros: expanded in place (works under quantifiers)
-            env = {p: coerce(a, self.W.parse_type(sf.types[p])) for p, a in zip(sf.params, args)}
+            env = {p: coerce(_unopt(a) if isinstance(a.ty, TOpt) and not isinstance(self.W.parse_type(sf.types[p]), TOpt) else a, self.W.parse_type(sf.types[p]))
+                   for p, a in zip(sf.params, args)}
             c2 = SpecCtx(env, cx.heap, env, cx.old_heap, cx.st, None)
             c2.facts = cx.facts
             return coerce(self.sev(self.fn_body_expr(sf.node), c2), self.W.parse_type(sf.ret))
@@ -406,7 +436,10 @@ class SpecEval:
             epoch = cx.heap.read_global('$epoch', INT)
             targs.append(epoch.term)
         for p, a in zip(sf.params, args):
-            a = coerce(a, self.W.parse_type(sf.types[p]))
+            pt = self.W.parse_type(sf.types[p])
+            if isinstance(a.ty, TOpt) and not isinstance(pt, TOpt):
+                a = _unopt(a)
+            a = coerce(a, pt)
             cargs.append(a)
             targs += list(a.t)
         app = f(*targs)
